@@ -258,6 +258,9 @@ func drawScalar(t *rapid.T, fd protoreflect.FieldDescriptor, o MsgOpts) model.Va
 // EnforcesUTF8 mirrors the documented rule: proto3 strings and editions utf8_validation=VERIFY.
 // It asks the descriptor (strs.EnforceUTF8-equivalent) through the exported surface only.
 func EnforcesUTF8(fd protoreflect.FieldDescriptor) bool {
+	if xtd, ok := fd.(protoreflect.ExtensionTypeDescriptor); ok {
+		fd = xtd.Descriptor() // extension fields are usually seen through their type's wrapper
+	}
 	if x, ok := fd.(interface{ EnforceUTF8() bool }); ok {
 		return x.EnforceUTF8()
 	}
